@@ -3,7 +3,7 @@
     [Print Assumptions]. *)
 From Coq Require Import List ZArith.
 From Webp Require Import Anim.Blend Anim.Canvas Anim.AnimDec Anim.AnimEncModel Anim.AnimEncSpec
-  Anim.AnimEncLemmas Anim.AnimEncProofs Anim.AnimEncMain Anim.AnimEncWitness Anim.AnimEncLoops Anim.AnimDecProof Anim.AnimDecLoops.
+  Anim.AnimEncLemmas Anim.AnimEncProofs Anim.AnimEncMain Anim.AnimEncWitness Anim.AnimEncLoops Anim.AnimDecProof Anim.AnimDecLoops Anim.AnimEncCodec.
 From WebpGen Require Consts.
 Import ListNotations.
 Open Scope Z_scope.
@@ -70,6 +70,31 @@ Print Assumptions C08_dispose_fill_loops_eq.
 Theorem C08_canvas_identical_scan : forall a b, canvas_eqb a b = true <-> a = b.
 Proof. exact canvas_eqb_eq. Qed.
 Print Assumptions C08_canvas_identical_scan.
+
+(** The cell-by-cell pixel loops of the encoder as the code runs them (nested index loops
+    with in-place writes), equal to the pointwise definitions of the model:
+    extractSubImage (fix 7a3566f), clearKeptPixels (fix 79df971, conditional in-place write
+    bounded by picture and rectangle), the padding copy of addOptimizedFrame. *)
+Theorem C08_extract_sub_loops_eq : forall W c r, extract_sub_loops W c r = extract_sub W c r.
+Proof. exact extract_sub_loops_eq. Qed.
+Print Assumptions C08_extract_sub_loops_eq.
+
+Theorem C08_clear_kept_loops_eq : forall W sub base r,
+  0 < iw sub -> 0 <= ih sub -> length (ipix sub) = Z.to_nat (iw sub * ih sub) ->
+  clear_kept_loops W sub base r = clear_kept W sub base r.
+Proof. exact clear_kept_loops_eq. Qed.
+Print Assumptions C08_clear_kept_loops_eq.
+
+Theorem C08_pad_loops_eq : forall W H i, 0 < W -> 0 <= H -> pad_loops W H i = pad W H i.
+Proof. exact pad_loops_eq. Qed.
+Print Assumptions C08_pad_loops_eq.
+
+(** The blend-test scans (isLosslessBlendingPossible / isLossyBlendingPossible: row loop,
+    column loop, return false at the first failing pixel) decide the pointwise condition. *)
+Theorem C08_blend_scan_spec : forall r P,
+  rect_forall r P = true <-> (forall x y, in_rect r x y = true -> P x y = true).
+Proof. exact rect_forall_spec. Qed.
+Print Assumptions C08_blend_scan_spec.
 
 (** snapToEven + clipping: still inside the canvas, non-empty, covers the changed
     rectangle, and both offsets are even (so that the container's halved offsets
@@ -180,3 +205,21 @@ Theorem C08_limits_match_source :
   max_position_off = WebpGen.Consts.container_MaxPositionOff.
 Proof. repeat split; reflexivity. Qed.
 Print Assumptions C08_limits_match_source.
+
+(** On the VP8L codec model (Vp8l/Vp8lRoundtrip.v, decode after emit for any valid encoder
+    choices) instead of the codec hypothesis. *)
+Theorem C08_anim_mixed_roundtrip_on_models :
+  forall o choose colour achoose, ll_choices_valid o choose ->
+  forall (W H : Z) (opts : eopts) (ops : list op)
+         (oracle : nat -> orc) (fails : nat -> efail) (maxf : Z) (has_meta simple : bool)
+         (st0 stf : est) (acc : list op) (out : output),
+    wf_canvas_dims W H -> lossless_opts opts -> Forall (AnimEncSpec.wf_op W H) ops ->
+    new_encoder W H opts = Some st0 ->
+    run_ops repaired maxf oracle fails st0 ops = (stf, acc) ->
+    lone_small_raw_ok W H has_meta acc ->
+    close has_meta simple stf = Some out ->
+    same_show W H (eo_loop opts) out
+      (playback (rt_ll_model o choose) (rt_ly_model colour achoose) repaired out)
+      (ref_show W H (blank W H, None) acc).
+Proof. exact anim_mixed_roundtrip_on_models. Qed.
+Print Assumptions C08_anim_mixed_roundtrip_on_models.
